@@ -243,6 +243,9 @@ class AbstractHasAxes(AbstractHasMetadata):
             if len(newdims) != len(self.dims):
                 raise ValueError("dimensions number mismatch")
             newdims = dict(zip(self.dims, newdims))
+        names = [newdims.get(d, d) for d in self.dims]
+        if len(set(names)) != len(names):
+            raise ValueError("dimension names must be distinct, got: {}".format(names))
         for old in newdims.keys():
             self.axes[old].name = newdims[old]
 
